@@ -9,6 +9,7 @@
 #include "vf_common.h"
 #include "a/vec.h"
 #include "a/buf.h"
+#include <limits.h>
 
 #define MAXE 160  /* model capacity (elements) */
 #define MAXSZ 40  /* largest element size */
@@ -31,10 +32,28 @@ static uint32_t serial;
 static char const *KN = "vec";
 
 /* ---- callbacks */
+/* The comparator contract is only the SIGN of the result.  Each case uses one of four ways of returning it (chosen from
+ * (seed, case number), logged): -1/0/+1, the difference of the first differing key byte (|d| <= 255), INT_MIN/INT_MAX,
+ * magnitudes that vary with the difference.  A library that dispatches on the values -1/+1 fails under three of them. */
+static int cmp_style;
+static uint64_t cmp_calls[4];
+static char const *const cmp_style_name[] = {"-1/0/+1", "key difference", "INT_MIN/INT_MAX", "varying magnitude -2-(d%5) / 2+(d%7)"};
+static inline int cmp_result(int d) /* d: difference of the first differing key byte */
+{
+    ++cmp_calls[cmp_style];
+    if (d == 0) { return 0; }
+    switch (cmp_style)
+    {
+    case 0: return d > 0 ? 1 : -1;
+    case 1: return d;
+    case 2: return d > 0 ? INT_MAX : INT_MIN;
+    default: return d > 0 ? 2 + d % 7 : -2 - (-d) % 5;
+    }
+}
 static int cmp_elem(void const *l, void const *r)
 {
-    unsigned a = *(unsigned char const *)l, b = *(unsigned char const *)r;
-    return (a > b) - (a < b);
+    int a = *(unsigned char const *)l, b = *(unsigned char const *)r;
+    return cmp_result(a - b);
 }
 static unsigned char dtor_log[MAXE * 2][MAXSZ];
 static size_t dtor_n;
@@ -380,9 +399,1193 @@ static void del_container(seq *s)
     }
 }
 
+/* =====================================================================================================
+ * LARGE-SIZE / LONG-HISTORY case class (cases with c % LARGE_MOD == LARGE_RES).
+ *
+ * One vector or buffer is driven from empty through every power of two 2^k (k = 8 .. kmax, kmax = 16 where the
+ * byte size allows, see large_kmax) and back down, with a model of its own: an array of 32-bit element ids;
+ * the element bytes are a pure function of (id, element size, key mask) - first K = min(siz, 4) bytes are the
+ * big-endian key (id & kmask), the rest comes from a 64-bit mix of the id.  The complete state (element size,
+ * count, count <= capacity, every element byte) is compared with the model at every size 2^k-3 .. 2^k+2 on the
+ * way up, 2^k+3 .. 2^k-3 on the way down, and after every structural operation of the battery run at each
+ * station (insert/remove at 0, mid, num-2, num-1, num, SIZE_MAX in both capacity states, bulk store of
+ * 1..4097 elements from an exact-size source, erase of chunks / clipped tails / SIZE_MAX counts with destructor
+ * order checked, setn shrink + regrow, setm, sort + search + the three sorted-insert variants on large sorted
+ * data in both capacity states, accessors at large indices, swap of the large vector with a small one, refusal
+ * of the exactly-full buffer), and at the end setz re-use and destruction (each element destroyed once, in
+ * order).  Pushes between stations are only checked in O(1) (returned slot, count, capacity).
+ * Violation keys: <kind>_<op>/<clause>/large.
+ */
+#define BIGSZ 40
+#define LARGE_MOD_QUICK 61
+#define LARGE_MOD_THOROUGH 793
+#define LARGE_RES 17
+
+typedef struct big
+{
+    seq *h;         /* library handle (kind, object pointers); the small array model inside it is not used */
+    uint32_t *id;   /* model: one id per element */
+    size_t num, cap;
+    size_t siz, K;  /* element size; key = first K bytes */
+    uint32_t kmask; /* key = id & kmask (cleared low bits give runs of equal keys with different tails) */
+    int sorted;     /* model knows the sequence is ordered by key */
+    int fixed;      /* buffer whose capacity is never changed by setm (caller storage / one a_buf_new at full size) */
+} big;
+
+static int large_sampled;
+static int big_dead; /* a clause failed: the object is not driven further */
+static size_t g_K;   /* key length for cmp_big */
+static big G[2];
+
+#define BFAIL(clause, ...)                                                  \
+    do {                                                                    \
+        char key_[112];                                                     \
+        snprintf(key_, sizeof(key_), "%s_%s/%s/large", KN, opname, clause); \
+        vf_viol(key_, __VA_ARGS__);                                         \
+        big_dead = 1;                                                       \
+    } while (0)
+
+static int cmp_big(void const *l, void const *r)
+{
+    unsigned char const *a = (unsigned char const *)l, *b = (unsigned char const *)r;
+    for (size_t i = 0; i < g_K; ++i)
+    {
+        if (a[i] != b[i]) { return cmp_result((int)a[i] - (int)b[i]); }
+    }
+    return cmp_result(0);
+}
+
+static inline uint64_t b_mix(uint64_t x)
+{
+    x *= 0x9E3779B97F4A7C15ULL;
+    x ^= x >> 32;
+    x *= 0xD6E8FEB86659FD93ULL;
+    x ^= x >> 29;
+    return x;
+}
+/* numeric key of the first K bytes (same order as memcmp on them) */
+static inline uint32_t b_key(big const *g, uint32_t id) { return (id & g->kmask) >> (8 * (4 - g->K)); }
+
+/* element bytes of an id; out has room for BIGSZ bytes (whole 8-byte words are written) */
+static inline void b_render(big const *g, uint32_t id, unsigned char *out)
+{
+    size_t const z = g->siz;
+    uint32_t const key = id & g->kmask;
+    if (z > 4)
+    {
+        for (size_t j = 0; j * 8 < z; ++j)
+        {
+            uint64_t const w = b_mix(id + (j + 1) * 0x632BE59BD9B4E019ULL);
+            memcpy(out + j * 8, &w, 8);
+        }
+    }
+    for (size_t j = 0; j < g->K; ++j) { out[j] = (unsigned char)(key >> (24 - 8 * j)); }
+}
+static unsigned char b_tmp[BIGSZ]; /* scratch image (static: no instrumented stack frame per element) */
+static inline int b_eq(big const *g, unsigned char const *p, uint32_t id)
+{
+    if (g->siz <= 4)
+    {
+        /* the whole element is the big-endian key */
+        uint32_t v = 0;
+        for (size_t j = 0; j < g->siz; ++j) { v = (v << 8) | p[j]; }
+        return v == b_key(g, id);
+    }
+    b_render(g, id, b_tmp);
+    return memcmp(p, b_tmp, g->siz) == 0;
+}
+static inline void b_write(big const *g, void *p, uint32_t id)
+{
+    b_render(g, id, b_tmp);
+    memcpy(p, b_tmp, g->siz);
+}
+
+/* first index in [0, n) where the library element differs from the model element, n if none */
+static size_t b_first_diff(big const *g, unsigned char const *p, uint32_t const *ids, size_t n)
+{
+    size_t const z = g->siz;
+    uint32_t const km = g->kmask;
+    size_t i = 0;
+    switch (z)
+    {
+    case 1: for (; i < n; ++i) { if (p[i] != (unsigned char)((ids[i] & km) >> 24)) { break; } } break;
+    case 2: for (; i < n; ++i) { if ((((uint32_t)p[2 * i] << 8) | p[2 * i + 1]) != (ids[i] & km) >> 16) { break; } } break;
+    case 3: for (; i < n; ++i) { if ((((uint32_t)p[3 * i] << 16) | ((uint32_t)p[3 * i + 1] << 8) | p[3 * i + 2]) != (ids[i] & km) >> 8) { break; } } break;
+    case 4: for (; i < n; ++i) { if ((((uint32_t)p[4 * i] << 24) | ((uint32_t)p[4 * i + 1] << 16) | ((uint32_t)p[4 * i + 2] << 8) | p[4 * i + 3]) != (ids[i] & km)) { break; } } break;
+    default: for (; i < n; ++i) { if (!b_eq(g, p + i * z, ids[i])) { break; } } break;
+    }
+    return i;
+}
+
+static void bm_room(big *g, size_t n)
+{
+    if (n > g->cap)
+    {
+        g->cap = n + n / 2 + 64;
+        g->id = (uint32_t *)realloc(g->id, g->cap * sizeof(uint32_t));
+        if (!g->id) { fprintf(stderr, "h_seq: out of memory for the large model\n"); exit(2); }
+    }
+}
+static void bm_insert(big *g, size_t idx, uint32_t const *ids, size_t n)
+{
+    bm_room(g, g->num + n);
+    memmove(g->id + idx + n, g->id + idx, (g->num - idx) * sizeof(uint32_t));
+    memcpy(g->id + idx, ids, n * sizeof(uint32_t));
+    g->num += n;
+}
+static void bm_erase(big *g, size_t idx, size_t n)
+{
+    memmove(g->id + idx, g->id + idx + n, (g->num - idx - n) * sizeof(uint32_t));
+    g->num -= n;
+}
+static int bm_sorted_at(big const *g, size_t i) /* element i is in order with its neighbours */
+{
+    if (i > 0 && b_key(g, g->id[i - 1]) > b_key(g, g->id[i])) { return 0; }
+    if (i + 1 < g->num && b_key(g, g->id[i]) > b_key(g, g->id[i + 1])) { return 0; }
+    return 1;
+}
+
+static void bcell(char const *op, big const *g, int cls)
+{
+    char b[96];
+    int lg = 0;
+    for (size_t n = g->num; n > 1; n >>= 1) { ++lg; }
+    snprintf(b, sizeof(b), "L|%s|%s|z%d|k%d|c%d", KN, op, g->siz <= 1 ? 1 : g->siz <= 4 ? 4 : g->siz <= 8 ? 8 : 33, lg, cls);
+    vf_distinct_str(b);
+}
+
+/* header invariants only (O(1)) */
+static int b_light(big *g)
+{
+    seq *s = g->h;
+    size_t n = L_num(s), m = L_mem(s), z = L_siz(s);
+    if (z != g->siz) { BFAIL("element-size", "library element size %zu, model %zu", z, g->siz); return 0; }
+    if (n > m) { BFAIL("count-exceeds-capacity", "num %zu > mem %zu", n, m); return 0; }
+    if (n != g->num) { BFAIL("count", "library holds %zu elements, model %zu", n, g->num); return 0; }
+    if (n && !L_ptr(s)) { BFAIL("null-storage", "num %zu but storage pointer is null", n); return 0; }
+    return 1;
+}
+/* complete comparison with the model */
+static int b_check(big *g)
+{
+    seq *s = g->h;
+    size_t n, z;
+    unsigned char *p;
+    if (big_dead) { return 0; }
+    VF_COUNT("large-state-compared-with-model");
+    if (!b_light(g)) { return 0; }
+    n = g->num;
+    z = g->siz;
+    p = L_ptr(s);
+    {
+        size_t const i = b_first_diff(g, p, g->id, n);
+        if (i < n)
+        {
+            unsigned char t[BIGSZ];
+            b_render(g, g->id[i], t);
+            BFAIL("contents", "element %zu of %zu differs from the model (size %zu, mem %zu): lib %02x%02x.. model %02x%02x..", i, n, z, L_mem(s),
+                  p[i * z], z > 1 ? p[i * z + 1] : 0, t[0], z > 1 ? t[1] : 0);
+            return 0;
+        }
+    }
+    VF_ADD("large-elements-compared", n);
+    if (n >= 65536) { VF_COUNT("large-count-ge-65536-compared"); }
+    if (n * z >= 65536) { VF_COUNT("large-bytes-ge-65536-compared"); }
+    if (n >= 4096) { VF_COUNT("large-count-ge-4096-compared"); }
+    VF_MAX("large-max-elements", (double)n);
+    VF_MAX("large-max-bytes", (double)(n * z));
+    return 1;
+}
+static int b_owned(big *g, void *ret, char const *what)
+{
+    seq *s = g->h;
+    unsigned char *p = L_ptr(s), *q = (unsigned char *)ret;
+    size_t m = L_mem(s), z = L_siz(s);
+    VF_COUNT("large-returned-pointer-inside-owned-storage");
+    if (!p || q < p || q + z > p + m * z || (size_t)(q - p) % z)
+    {
+        BFAIL("returned-ptr-outside-storage", "%s: pointer %p, storage [%p, %p) element size %zu", what, ret, (void *)p, (void *)(p + m * z), z);
+        return 0;
+    }
+    return 1;
+}
+
+/* ---- destructor that verifies which element it is handed (no log: the model says which one is next) */
+static struct
+{
+    big *g;
+    size_t next, calls, expect, bad, first_bad;
+    int dir;
+} DT;
+static void b_dtor(void *p)
+{
+    if (DT.calls < DT.expect && DT.next < DT.g->num)
+    {
+        if (!b_eq(DT.g, (unsigned char const *)p, DT.g->id[DT.next]))
+        {
+            if (!DT.bad) { DT.first_bad = DT.calls; }
+            ++DT.bad;
+        }
+        DT.next += (size_t)DT.dir;
+    }
+    ++DT.calls;
+}
+static void dt_arm(big *g, size_t first, int dir, size_t expect)
+{
+    DT.g = g;
+    DT.next = first;
+    DT.dir = dir;
+    DT.expect = expect;
+    DT.calls = DT.bad = DT.first_bad = 0;
+}
+static void dt_judge(big *g, char const *what)
+{
+    (void)g;
+    VF_COUNT("large-destroys-each-dropped-element-once-in-order");
+    if (DT.calls != DT.expect) { BFAIL("dtor-call-count", "%s: %zu destructor calls for %zu dropped elements", what, DT.calls, DT.expect); }
+    else if (DT.bad) { BFAIL("dtor-wrong-element", "%s: %zu of %zu destructor calls got a different element (first: call %zu)", what, DT.bad, DT.calls, DT.first_bad); }
+}
+
+static uint32_t b_sorted_fill_id(big const *g, size_t j) { return 0xFFFFFFFFu - ((uint32_t)j & ~g->kmask); }
+
+/* ---- operations (each: log, call, O(1) clauses, model update, optional complete comparison) */
+static void b_push(big *g, int where, size_t idx, uint32_t id, int check)
+{
+    seq *s = g->h;
+    size_t num = g->num, mem = L_mem(s), eff;
+    void *p;
+    if (big_dead) { return; }
+    g_siz = g->siz;
+    opname = where == 0 ? "push_back" : where == 1 ? "push_fore" : "insert";
+    if (check) { vf_log("L %s %s idx=%zu id=%08x (num %zu mem %zu)", KN, opname, idx, id, num, mem); }
+    p = where == 0 ? L_push_back(s) : where == 1 ? L_push_fore(s) : L_insert(s, idx);
+    ++vf.evals;
+    if (s->is_buf && num >= mem)
+    {
+        VF_COUNT("large-buf-refuses-when-full");
+        if (p) { BFAIL("accepted-although-full", "returned %p with num == mem == %zu", p, mem); return; }
+        if (check) { b_check(g); } else { b_light(g); }
+        return;
+    }
+    if (!p) { BFAIL("unexpected-null", "returned null with num %zu mem %zu", num, mem); return; }
+    if (!b_owned(g, p, "new element")) { return; }
+    if (L_mem(s) < mem) { BFAIL("capacity-shrank", "mem %zu before, %zu after", mem, L_mem(s)); return; }
+    eff = where == 0 ? num : where == 1 ? 0 : (idx < num ? idx : num);
+    if ((size_t)((unsigned char *)p - L_ptr(s)) != eff * g->siz)
+    {
+        BFAIL("returned-ptr-wrong-slot", "slot %zu returned for position %zu (num %zu)", (size_t)((unsigned char *)p - L_ptr(s)) / g->siz, eff, num);
+        return;
+    }
+    b_write(g, p, id);
+    bm_insert(g, eff, &id, 1);
+    if (g->sorted) { g->sorted = bm_sorted_at(g, eff); }
+    if (check) { b_check(g); bcell(opname, g, idx == 0 ? 0 : idx >= num ? 2 : 1); } else { b_light(g); }
+}
+
+static void b_pull(big *g, int where, size_t idx, int check)
+{
+    seq *s = g->h;
+    size_t num = g->num, mem = L_mem(s), at, slot;
+    int full = L_num(s) == mem;
+    void *p;
+    if (big_dead) { return; }
+    g_siz = g->siz;
+    opname = where == 0 ? "pull_back" : where == 1 ? "pull_fore" : "remove";
+    if (check) { vf_log("L %s %s idx=%zu (num %zu mem %zu, %s)", KN, opname, idx, num, mem, full ? "full" : "spare"); }
+    p = where == 0 ? L_pull_back(s) : where == 1 ? L_pull_fore(s) : L_remove(s, idx);
+    ++vf.evals;
+    if (num == 0)
+    {
+        if (p) { BFAIL("non-null-from-empty", "returned %p from an empty container", p); return; }
+        b_light(g);
+        return;
+    }
+    at = where == 0 ? num - 1 : where == 1 ? 0 : (idx < num - 1 ? idx : num - 1);
+    if (!p) { BFAIL("unexpected-null", "returned null with %zu elements", num); return; }
+    if (!b_owned(g, p, "removed element")) { return; }
+    VF_COUNT("large-removed-element-intact-and-past-live-range");
+    slot = (size_t)((unsigned char *)p - L_ptr(s)) / g->siz;
+    if (slot < num - 1) { BFAIL("removed-ptr-overlaps-live-element", "removed element parked at slot %zu but %zu elements remain", slot, num - 1); return; }
+    if (!b_eq(g, (unsigned char const *)p, g->id[at])) { BFAIL("removed-element-not-intact", "bytes behind the returned pointer are not element %zu of %zu", at, num); return; }
+    bm_erase(g, at, 1);
+    if (where != 0 && at < num - 1)
+    {
+        if (full) { VF_COUNT("large-remove-path-full"); } else { VF_COUNT("large-remove-path-spare"); }
+    }
+    if (check) { b_check(g); bcell(opname, g, (at == 0 ? 0 : at >= num - 2 ? 2 : 1) + 4 * full); } else { b_light(g); }
+}
+
+static void b_store(big *g, vf_rng *r, size_t idx, size_t cnt, int use_copy)
+{
+    seq *s = g->h;
+    size_t num = g->num, mem = L_mem(s), z = g->siz, at = idx < num ? idx : num;
+    unsigned char *src;
+    uint32_t *ids;
+    int rc;
+    if (big_dead) { return; }
+    g_siz = z;
+    opname = "store";
+    ids = (uint32_t *)malloc((cnt ? cnt : 1) * sizeof(uint32_t));
+    src = (unsigned char *)malloc(cnt * z ? cnt * z : 1); /* exact size: a read past the last element is an ASan report */
+    for (size_t k = 0; k < cnt; ++k)
+    {
+        ids[k] = (uint32_t)vf_u64(r);
+        b_write(g, src + k * z, ids[k]);
+    }
+    vf_log("L %s store idx=%zu n=%zu copy=%d (num %zu mem %zu)", KN, idx, cnt, use_copy, num, mem);
+    rc = s->is_buf ? a_buf_store(s->b, idx, src, cnt, use_copy ? copy_elem : NULL) : a_vec_store(s->v, idx, src, cnt, use_copy ? copy_elem : NULL);
+    free(src);
+    ++vf.evals;
+    VF_COUNT("large-store");
+    if (s->is_buf && num + cnt > mem)
+    {
+        VF_COUNT("large-buf-refuses-when-full");
+        if (rc == A_SUCCESS) { BFAIL("accepted-although-full", "store of %zu into num %zu mem %zu returned success", cnt, num, mem); }
+    }
+    else if (rc != A_SUCCESS) { BFAIL("unexpected-error", "rc %d for store of %zu at %zu (num %zu mem %zu)", rc, cnt, idx, num, mem); }
+    else
+    {
+        bm_insert(g, at, ids, cnt);
+        if (cnt) { g->sorted = 0; }
+        if (cnt >= 256) { VF_COUNT("large-store-ge-256-elements"); }
+    }
+    free(ids);
+    b_check(g);
+    bcell(opname, g, (cnt >= 4096 ? 3 : cnt >= 256 ? 2 : cnt > 1 ? 1 : 0) + 4 * (idx == 0 ? 0 : idx >= num ? 2 : 1));
+}
+
+static void b_erase(big *g, size_t idx, size_t cnt, int with_dtor)
+{
+    seq *s = g->h;
+    size_t num = g->num, n = idx < num ? (cnt < num - idx ? cnt : num - idx) : 0;
+    int rc;
+    if (big_dead) { return; }
+    g_siz = g->siz;
+    opname = "erase";
+    vf_log("L %s erase idx=%zu n=%zu dtor=%d (num %zu mem %zu)", KN, idx, cnt, with_dtor, num, L_mem(s));
+    dt_arm(g, idx, 1, with_dtor ? n : 0);
+    rc = s->is_buf ? a_buf_erase(s->b, idx, cnt, with_dtor ? b_dtor : NULL) : a_vec_erase(s->v, idx, cnt, with_dtor ? b_dtor : NULL);
+    ++vf.evals;
+    VF_COUNT("large-erase");
+    if (idx >= num)
+    {
+        if (rc != A_OBOUNDS) { BFAIL("out-of-range-not-reported", "idx %zu >= num %zu returned %d", idx, num, rc); }
+        if (DT.calls) { BFAIL("dtor-called-out-of-range", "%zu destructor calls", DT.calls); }
+    }
+    else
+    {
+        if (rc != A_SUCCESS) { BFAIL("unexpected-error", "rc %d for idx %zu n %zu num %zu", rc, idx, cnt, num); return; }
+        if (with_dtor) { dt_judge(g, "erase"); }
+        bm_erase(g, idx, n);
+    }
+    b_check(g);
+    bcell(opname, g, (n >= 4096 ? 3 : n >= 256 ? 2 : n > 1 ? 1 : 0) + 4 * (idx == 0 ? 0 : idx + n >= num ? 2 : 1));
+}
+
+static void b_setn(big *g, vf_rng *r, size_t n, int with_dtor)
+{
+    seq *s = g->h;
+    size_t num = g->num, mem = L_mem(s), want = (s->is_buf && n > mem) ? mem : n;
+    if (big_dead) { return; }
+    g_siz = g->siz;
+    opname = "setn";
+    vf_log("L %s setn %zu dtor=%d (num %zu mem %zu)", KN, n, with_dtor, num, mem);
+    dt_arm(g, num ? num - 1 : 0, -1, (with_dtor && want < num) ? num - want : 0);
+    if (s->is_buf) { a_buf_setn(s->b, n, with_dtor ? b_dtor : NULL); }
+    else
+    {
+        int rc = a_vec_setn(s->v, n, with_dtor ? b_dtor : NULL);
+        if (rc != A_SUCCESS) { BFAIL("unexpected-error", "rc %d", rc); return; }
+    }
+    ++vf.evals;
+    if (with_dtor) { dt_judge(g, "setn"); }
+    if (L_num(s) != want) { BFAIL("count", "count %zu after setn(%zu) (num %zu mem %zu)", L_num(s), n, num, mem); return; }
+    if (L_mem(s) < want) { BFAIL("count-exceeds-capacity", "num %zu > mem %zu after setn", want, L_mem(s)); return; }
+    if (want > num)
+    {
+        /* the new tail is unspecified: the caller initialises it (keeping the order if the sequence is sorted) */
+        unsigned char *p = L_ptr(s);
+        int keep = g->sorted;
+        bm_room(g, want);
+        for (size_t k = num; k < want; ++k)
+        {
+            uint32_t id = keep ? b_sorted_fill_id(g, k) : (uint32_t)vf_u64(r);
+            b_write(g, p + k * g->siz, id);
+            g->id[k] = id;
+        }
+        g->num = want;
+        VF_COUNT("large-setn-regrow");
+    }
+    else
+    {
+        g->num = want;
+        if (want < num) { VF_COUNT("large-setn-shrink"); }
+    }
+    b_check(g);
+    bcell(opname, g, (want > num ? 1 : want < num ? 2 : 0) + 4 * with_dtor);
+}
+
+static void b_setm(big *g, size_t m)
+{
+    seq *s = g->h;
+    size_t mem = L_mem(s);
+    if (big_dead) { return; }
+    opname = "setm";
+    vf_log("L %s setm %zu (num %zu mem %zu)", KN, m, g->num, mem);
+    if (s->is_buf)
+    {
+        a_buf *nb = a_buf_setm(s->b, m); /* precondition: m >= num */
+        if (!nb) { BFAIL("unexpected-null", "a_buf_setm(%zu) failed", m); return; }
+        s->b = nb;
+        if (a_buf_mem(nb) != m) { BFAIL("capacity", "mem %zu after setm(%zu)", a_buf_mem(nb), m); return; }
+    }
+    else
+    {
+        int rc = a_vec_setm(s->v, m);
+        if (rc != A_SUCCESS) { BFAIL("unexpected-error", "rc %d", rc); return; }
+        if (L_mem(s) < m || L_mem(s) < mem) { BFAIL("capacity", "mem %zu after setm(%zu), before %zu", L_mem(s), m, mem); return; }
+    }
+    ++vf.evals;
+    VF_COUNT("large-setm");
+    b_check(g);
+    bcell(opname, g, m > mem);
+}
+
+/* capacity state control at large size */
+static void b_make_full(big *g, vf_rng *r)
+{
+    seq *s = g->h;
+    if (big_dead || L_num(s) == L_mem(s)) { return; }
+    if (s->is_buf && !g->fixed) { b_setm(g, g->num); }
+    else if (s->is_buf || L_mem(s) - g->num <= g->num + 4096) { b_setn(g, r, L_mem(s), 0); } /* count raised to the capacity, new tail written by the caller */
+    /* else: a vector whose capacity is more than twice its count is left with spare room (the capacity of a vector cannot be
+       reduced, raising the count that far would let the sizes of a history grow geometrically) */
+}
+/* after an operation that needed the exactly-full state: drop the padding again (destructor order checked) */
+static void b_restore(big *g, vf_rng *r, size_t n0)
+{
+    if (!big_dead && g->num > n0 + 8) { b_setn(g, r, n0, vf_chance(r, 1, 2)); }
+}
+static void b_make_spare(big *g, vf_rng *r, size_t slots)
+{
+    seq *s = g->h;
+    if (big_dead || L_mem(s) - L_num(s) >= slots) { return; }
+    if (!s->is_buf || !g->fixed) { b_setm(g, g->num + slots); }
+    else if (L_mem(s) >= slots) { b_setn(g, r, L_mem(s) - slots, 1); }
+}
+
+/* permutation check of sort: the model ids are ordered by (key, element bytes); the library is already ordered by key, so only
+   its runs of equal keys are ordered by element bytes; then both sides must agree position by position */
+static big const *ord_g;
+static unsigned char const *ord_base;
+static int ord_cmp_id(void const *l, void const *r)
+{
+    uint32_t const a = *(uint32_t const *)l, b = *(uint32_t const *)r;
+    uint32_t const ka = b_key(ord_g, a), kb = b_key(ord_g, b);
+    if (ka != kb) { return ka < kb ? -1 : 1; }
+    if (ord_g->siz <= 4 || a == b) { return 0; } /* the key is the whole element / same id */
+    {
+        unsigned char ta[BIGSZ], tb[BIGSZ];
+        b_render(ord_g, a, ta);
+        b_render(ord_g, b, tb);
+        return memcmp(ta, tb, ord_g->siz);
+    }
+}
+static int ord_cmp_lib(void const *l, void const *r)
+{
+    uint32_t const a = *(uint32_t const *)l, b = *(uint32_t const *)r;
+    return memcmp(ord_base + (size_t)a * ord_g->siz, ord_base + (size_t)b * ord_g->siz, ord_g->siz);
+}
+
+static void b_sort(big *g)
+{
+    seq *s = g->h;
+    size_t n = g->num, z = g->siz;
+    unsigned char *p;
+    uint32_t *li, *mi, *nid;
+    if (big_dead) { return; }
+    g_siz = z;
+    g_K = g->K;
+    opname = "sort";
+    vf_log("L %s sort (num %zu mem %zu)", KN, n, L_mem(s));
+    if (s->is_buf) { a_buf_sort(s->b, cmp_big); } else { a_vec_sort(s->v, cmp_big); }
+    ++vf.evals;
+    VF_COUNT("large-sort-sorted-permutation");
+    if (L_num(s) != n) { BFAIL("count", "count changed from %zu to %zu", n, L_num(s)); return; }
+    p = L_ptr(s);
+    for (size_t k = 1; k < n; ++k)
+    {
+        if (memcmp(p + (k - 1) * z, p + k * z, g->K) > 0) { BFAIL("not-sorted", "elements %zu and %zu of %zu are out of order", k - 1, k, n); return; }
+    }
+    li = (uint32_t *)malloc((n ? n : 1) * sizeof(uint32_t));
+    mi = (uint32_t *)malloc((n ? n : 1) * sizeof(uint32_t));
+    nid = (uint32_t *)malloc((n ? n : 1) * sizeof(uint32_t));
+    memcpy(mi, g->id, n * sizeof(uint32_t));
+    for (size_t k = 0; k < n; ++k) { li[k] = (uint32_t)k; }
+    ord_g = g;
+    ord_base = p;
+    qsort(mi, n, sizeof(uint32_t), ord_cmp_id);
+    if (z > 4)
+    {
+        for (size_t a = 0; a < n;)
+        {
+            size_t b = a + 1;
+            while (b < n && memcmp(p + a * z, p + b * z, g->K) == 0) { ++b; }
+            if (b - a > 1) { qsort(li + a, b - a, sizeof(uint32_t), ord_cmp_lib); }
+            a = b;
+        }
+    }
+    for (size_t k = 0; k < n; ++k)
+    {
+        if (!b_eq(g, p + (size_t)li[k] * z, mi[k]))
+        {
+            BFAIL("element-lost", "sorted contents are not a permutation of the %zu model elements (rank %zu differs)", n, k);
+            break;
+        }
+        nid[li[k]] = mi[k];
+    }
+    if (!big_dead) { memcpy(g->id, nid, n * sizeof(uint32_t)); }
+    free(li);
+    free(mi);
+    free(nid);
+    g->sorted = 1;
+    b_check(g);
+    bcell(opname, g, 0);
+}
+
+static int bm_present(big const *g, uint32_t key)
+{
+    size_t lo = 0, hi = g->num;
+    while (lo < hi)
+    {
+        size_t mid = lo + (hi - lo) / 2;
+        if (b_key(g, g->id[mid]) < key) { lo = mid + 1; } else { hi = mid; }
+    }
+    return lo < g->num && b_key(g, g->id[lo]) == key;
+}
+
+static void b_search(big *g, vf_rng *r, int probes)
+{
+    seq *s = g->h;
+    size_t z = g->siz;
+    if (big_dead || !g->sorted) { return; }
+    g_K = g->K;
+    opname = "search";
+    vf_log("L %s search x%d (num %zu)", KN, probes, g->num);
+    for (int i = 0; i < probes && !big_dead; ++i)
+    {
+        int cls = (int)vf_below(r, 6), present;
+        uint32_t id = cls == 0 ? 0 : cls == 1 ? 0xFFFFFFFFu : (cls < 4 && g->num) ? g->id[vf_below(r, g->num)] : (uint32_t)vf_u64(r);
+        unsigned char *key = (unsigned char *)malloc(z); /* exact size */
+        void *p;
+        if (cls == 2 && g->num) { id = g->id[vf_chance(r, 1, 2) ? 0 : g->num - 1]; }
+        b_write(g, key, id);
+        present = bm_present(g, b_key(g, id));
+        p = s->is_buf ? a_buf_search(s->b, key, cmp_big) : a_vec_search(s->v, key, cmp_big);
+        ++vf.evals;
+        VF_COUNT("large-search-finds-iff-present");
+        if (present != (p != NULL)) { BFAIL("found-iff-present", "key %08x present=%d but search returned %p (num %zu)", id & g->kmask, present, p, g->num); }
+        else if (p)
+        {
+            unsigned char *b = L_ptr(s), *q = (unsigned char *)p;
+            if (q < b || q >= b + g->num * z || (size_t)(q - b) % z || memcmp(q, key, g->K) != 0)
+            {
+                BFAIL("wrong-element", "search returned a pointer that is not a live element with that key");
+            }
+        }
+        free(key);
+        bcell(opname, g, present);
+    }
+}
+
+/* variant 0: push_fore + sort_fore, 1: push_back + sort_back, 2: push_sort; key class 0 min, 1 max, 2 equal to a present key, 3 random */
+static void b_sorted_insert(big *g, vf_rng *r, int variant, int want_full, int kcls)
+{
+    seq *s = g->h;
+    size_t z = g->siz, n0, f, nstart;
+    uint32_t id, low;
+    unsigned char *base;
+    void *p;
+    int full;
+    if (big_dead || !g->sorted) { return; }
+    nstart = g->num;
+    /* the capacity state AFTER the raw push selects the implementation path of sort_fore / sort_back */
+    if (variant == 2) { if (want_full) { b_make_full(g, r); } else { b_make_spare(g, r, 1); } }
+    else if (want_full) { b_make_full(g, r); if (g->num) { b_pull(g, 0, 0, 0); } }
+    else { b_make_spare(g, r, 2); }
+    if (big_dead) { return; }
+    low = (uint32_t)vf_u64(r) & ~g->kmask;
+    id = kcls == 0 ? low : kcls == 1 ? (g->kmask | low) : (kcls == 2 && g->num) ? ((g->id[vf_below(r, g->num)] & g->kmask) | low) : (uint32_t)vf_u64(r);
+    n0 = g->num;
+    g_siz = z;
+    g_K = g->K;
+    if (s->is_buf && L_num(s) >= L_mem(s))
+    {
+        unsigned char *key;
+        if (variant != 2) { return; }
+        opname = "push_sort";
+        key = (unsigned char *)malloc(z);
+        b_write(g, key, id);
+        vf_log("L %s push_sort key %08x on a full buffer (num %zu mem %zu)", KN, id & g->kmask, n0, L_mem(s));
+        p = a_buf_push_sort(s->b, key, cmp_big);
+        free(key);
+        ++vf.evals;
+        VF_COUNT("large-buf-refuses-when-full");
+        if (p) { BFAIL("accepted-although-full", "push_sort returned non-null with num == mem == %zu", n0); return; }
+        b_check(g);
+        b_restore(g, r, nstart);
+        return;
+    }
+    if (variant == 0)
+    {
+        opname = "sort_fore";
+        p = L_push_fore(s);
+        if (!p) { BFAIL("unexpected-null", "push_fore failed"); return; }
+        b_write(g, p, id);
+        full = L_num(s) == L_mem(s);
+        vf_log("L %s push_fore key %08x + sort_fore (num %zu mem %zu, %s path)", KN, id & g->kmask, L_num(s), L_mem(s), full ? "full" : "spare");
+        if (s->is_buf) { a_buf_sort_fore(s->b, cmp_big); } else { a_vec_sort_fore(s->v, cmp_big); }
+        if (full) { VF_COUNT("large-sort_fore-path-full"); } else { VF_COUNT("large-sort_fore-path-spare"); }
+    }
+    else if (variant == 1)
+    {
+        opname = "sort_back";
+        p = L_push_back(s);
+        if (!p) { BFAIL("unexpected-null", "push_back failed"); return; }
+        b_write(g, p, id);
+        full = L_num(s) == L_mem(s);
+        vf_log("L %s push_back key %08x + sort_back (num %zu mem %zu, %s path)", KN, id & g->kmask, L_num(s), L_mem(s), full ? "full" : "spare");
+        if (s->is_buf) { a_buf_sort_back(s->b, cmp_big); } else { a_vec_sort_back(s->v, cmp_big); }
+        if (full) { VF_COUNT("large-sort_back-path-full"); } else { VF_COUNT("large-sort_back-path-spare"); }
+    }
+    else
+    {
+        unsigned char *key = (unsigned char *)malloc(z);
+        opname = "push_sort";
+        b_write(g, key, id);
+        full = L_num(s) == L_mem(s);
+        vf_log("L %s push_sort key %08x (num %zu mem %zu)", KN, id & g->kmask, L_num(s), L_mem(s));
+        p = s->is_buf ? a_buf_push_sort(s->b, key, cmp_big) : a_vec_push_sort(s->v, key, cmp_big);
+        free(key);
+        if (!p) { BFAIL("unexpected-null", "push_sort failed with num %zu mem %zu", n0, L_mem(s)); return; }
+        if (!b_owned(g, p, "push_sort slot")) { return; }
+        b_write(g, p, id);
+        VF_COUNT("large-push_sort");
+    }
+    ++vf.evals;
+    VF_COUNT("large-sorted-insert-keeps-order-and-elements");
+    if (L_num(s) != n0 + 1) { BFAIL("count", "count %zu after sorted insert into %zu", L_num(s), n0); return; }
+    if (L_siz(s) != z || L_num(s) > L_mem(s)) { BFAIL("count-exceeds-capacity", "num %zu mem %zu siz %zu", L_num(s), L_mem(s), L_siz(s)); return; }
+    /* the result must be the old sequence with the new element at one position; if such a position exists, the first index
+       where the library differs from the old sequence is one (elements before it that equal the new one are identical to it) */
+    base = L_ptr(s);
+    f = b_first_diff(g, base, g->id, n0);
+    if (!b_eq(g, base + f * z, id)) { BFAIL("element-lost-or-reordered", "position %zu of %zu holds neither the old element nor the new one", f, n0 + 1); return; }
+    {
+        size_t const i = f + b_first_diff(g, base + (f + 1) * z, g->id + f, n0 - f);
+        if (i < n0) { BFAIL("element-lost-or-reordered", "new element at %zu, but position %zu of %zu is not old element %zu", f, i + 1, n0 + 1, i); return; }
+    }
+    if ((f > 0 && b_key(g, g->id[f - 1]) > b_key(g, id)) || (f < n0 && b_key(g, id) > b_key(g, g->id[f])))
+    {
+        BFAIL("not-sorted", "new key %08x placed at %zu of %zu out of order", id & g->kmask, f, n0 + 1);
+        return;
+    }
+    bm_insert(g, f, &id, 1);
+    VF_COUNT("large-state-compared-with-model");
+    VF_ADD("large-elements-compared", n0 + 1);
+    if (n0 + 1 >= 65536) { VF_COUNT("large-count-ge-65536-compared"); }
+    bcell(opname, g, kcls + 4 * full);
+    b_restore(g, r, nstart);
+}
+
+static void b_access(big *g, vf_rng *r)
+{
+    seq *s = g->h;
+    unsigned char *b = L_ptr(s);
+    size_t n = g->num, m = L_mem(s), z = g->siz;
+    size_t const idxs[] = {0, n ? n - 1 : 0, n, m ? m - 1 : 0, m, m + 1, 255, 256, 4095, 4096, 65535, 65536, 65537, (size_t)vf_below(r, m + 2), SIZE_MAX};
+    ptrdiff_t const difs[] = {-1, -(ptrdiff_t)n, -(ptrdiff_t)n - 1, (ptrdiff_t)n - 1, (ptrdiff_t)m, (ptrdiff_t)m - 1, -(ptrdiff_t)vf_below(r, n + 1), 65535, 65536, -65536, -65537};
+    void *p;
+    if (big_dead) { return; }
+    opname = "access";
+    vf_log("L %s accessors (num %zu mem %zu)", KN, n, m);
+    ++vf.evals;
+    VF_COUNT("large-accessors");
+    for (size_t i = 0; i < sizeof(idxs) / sizeof(idxs[0]); ++i)
+    {
+        size_t idx = idxs[i];
+        p = s->is_buf ? a_buf_at(s->b, idx) : a_vec_at(s->v, idx);
+        if (idx < m ? p != b + idx * z : p != NULL) { BFAIL("at", "at(%zu) = %p with mem %zu base %p", idx, p, m, (void *)b); return; }
+    }
+    for (size_t i = 0; i < sizeof(difs) / sizeof(difs[0]); ++i)
+    {
+        ptrdiff_t di = difs[i];
+        size_t eff = di >= 0 ? (size_t)di : (size_t)di + n;
+        p = s->is_buf ? a_buf_of(s->b, di) : a_vec_of(s->v, di);
+        if (eff < m ? p != b + eff * z : p != NULL) { BFAIL("of", "of(%td) = %p with num %zu mem %zu", di, p, n, m); return; }
+    }
+    p = s->is_buf ? a_buf_top(s->b) : a_vec_top(s->v);
+    if (n ? p != b + (n - 1) * z : p != NULL) { BFAIL("top", "top = %p with num %zu", p, n); return; }
+    p = s->is_buf ? a_buf_end(s->b) : a_vec_end(s->v);
+    if (b ? p != b + n * z : p != NULL) { BFAIL("end", "end = %p with num %zu", p, n); return; }
+    if (z == 8)
+    {
+        size_t cnt = 0;
+        if (s->is_buf) { a_buf_foreach(uint64_t, *, it, s->b) { if ((unsigned char *)it != b + cnt * 8) { break; } ++cnt; } }
+        else { a_vec_foreach(uint64_t, *, it, s->v) { if ((unsigned char *)it != b + cnt * 8) { break; } ++cnt; } }
+        if (cnt != n) { BFAIL("foreach", "foreach visited %zu of %zu in order", cnt, n); return; }
+        cnt = 0;
+        if (s->is_buf) { a_buf_foreach_reverse(uint64_t, *, it, s->b) { if ((unsigned char *)it != b + (n - 1 - cnt) * 8) { break; } ++cnt; } }
+        else { a_vec_foreach_reverse(uint64_t, *, it, s->v) { if ((unsigned char *)it != b + (n - 1 - cnt) * 8) { break; } ++cnt; } }
+        if (cnt != n) { BFAIL("foreach_reverse", "visited %zu of %zu in order", cnt, n); return; }
+    }
+    bcell(opname, g, 0);
+}
+
+/* whole-vector swap: the handles stay, contents and models change sides */
+static void b_swap(big *a, big *b)
+{
+    big t;
+    seq *ha = a->h, *hb = b->h;
+    if (big_dead) { return; }
+    opname = "swap";
+    vf_log("L vec swap (num %zu siz %zu <-> num %zu siz %zu)", a->num, a->siz, b->num, b->siz);
+    a_vec_swap(ha->v, hb->v);
+    ++vf.evals;
+    VF_COUNT("large-vec-swap-large-with-small");
+    t = *a;
+    *a = *b;
+    *b = t;
+    a->h = ha;
+    b->h = hb;
+    b_check(a);
+    b_check(b);
+    bcell(opname, a, 0);
+}
+
+static void b_new(big *g, seq *h, int is_buf, size_t siz, size_t cap, int by_ctor, int fixed, uint32_t kmask)
+{
+    memset(g, 0, sizeof(*g));
+    memset(h, 0, sizeof(*h));
+    g->h = h;
+    g->siz = siz;
+    g->K = siz < 4 ? siz : 4;
+    g->kmask = kmask;
+    g->sorted = 1;
+    g->fixed = fixed;
+    h->is_buf = is_buf;
+    h->siz = siz;
+    h->by_ctor = by_ctor;
+    opname = "new";
+    if (is_buf && by_ctor)
+    {
+        vf_log("L a_buf_ctor(storage of %zu bytes, %zu, %zu)", sizeof(a_buf) + siz * cap, siz, cap);
+        h->b = (a_buf *)malloc(sizeof(a_buf) + siz * cap); /* exact size: header + payload */
+        a_buf_ctor(h->b, siz, cap);
+    }
+    else if (is_buf)
+    {
+        vf_log("L a_buf_new(%zu, %zu)", siz, cap);
+        h->b = a_buf_new(siz, cap);
+        if (!h->b) { BFAIL("unexpected-null", "a_buf_new(%zu, %zu) failed", siz, cap); return; }
+    }
+    else if (by_ctor)
+    {
+        vf_log("L a_vec_ctor(%zu)", siz);
+        h->v = (a_vec *)malloc(sizeof(a_vec));
+        memset(h->v, 0xA5, sizeof(a_vec));
+        a_vec_ctor(h->v, siz);
+    }
+    else
+    {
+        vf_log("L a_vec_new(%zu)", siz);
+        h->v = a_vec_new(siz);
+        if (!h->v) { BFAIL("unexpected-null", "a_vec_new(%zu) failed", siz); return; }
+    }
+    if (is_buf && a_buf_mem(h->b) != cap) { BFAIL("capacity", "mem %zu after construction with %zu", a_buf_mem(h->b), cap); return; }
+    b_check(g);
+}
+
+static void b_die(big *g, vf_rng *r)
+{
+    seq *s = g->h;
+    if (!s) { return; }
+    if (!big_dead && (s->v || s->b))
+    {
+        size_t num = g->num;
+        g_siz = g->siz;
+        opname = "die";
+        vf_log("L %s %s (num %zu mem %zu)", KN, s->by_ctor ? "dtor" : "die", num, L_mem(s));
+        dt_arm(g, num ? num - 1 : 0, -1, num);
+        if (s->by_ctor && s->is_buf) { a_buf_dtor(s->b, b_dtor); }
+        else if (s->by_ctor) { a_vec_dtor(s->v, b_dtor); }
+        else if (s->is_buf) { a_buf_die(s->b, b_dtor); }
+        else { a_vec_die(s->v, b_dtor); }
+        ++vf.evals;
+        VF_COUNT("large-die-destroys-each-element-once");
+        dt_judge(g, "die");
+        g->num = 0;
+        if (s->by_ctor && !s->is_buf && !big_dead)
+        {
+            /* exit / re-use of the same object: construct again with another element size, fill in bulk, destroy */
+            size_t nz = g->siz == 8 ? 3 : 8, cnt = 257 + (size_t)vf_below(r, 4000);
+            if (a_vec_ptr(s->v) || a_vec_num(s->v) || a_vec_mem(s->v)) { BFAIL("object-not-empty", "ptr %p num %zu mem %zu after a_vec_dtor", a_vec_ptr(s->v), a_vec_num(s->v), a_vec_mem(s->v)); }
+            vf_log("L a_vec_ctor(%zu) on the destroyed object", nz);
+            a_vec_ctor(s->v, nz);
+            g->siz = s->siz = nz;
+            g->K = nz < 4 ? nz : 4;
+            g->sorted = 1;
+            b_store(g, r, 0, cnt, 0);
+            b_store(g, r, cnt / 2, 300, 1);
+            VF_COUNT("large-exit-and-reuse");
+            if (!big_dead)
+            {
+                opname = "die";
+                dt_arm(g, g->num - 1, -1, g->num);
+                a_vec_dtor(s->v, b_dtor);
+                dt_judge(g, "dtor after re-use");
+            }
+        }
+        if (s->by_ctor && !big_dead) { free(s->is_buf ? (void *)s->b : (void *)s->v); }
+    }
+    free(g->id);
+    g->id = NULL;
+    s->v = NULL;
+    s->b = NULL;
+}
+
+/* setz: empties, keeps the byte capacity, changes the element size (re-use of a large block) */
+static void b_setz(big *g, size_t nz, int with_dtor)
+{
+    seq *s = g->h;
+    size_t bytes = L_mem(s) * g->siz, num = g->num;
+    if (big_dead) { return; }
+    g_siz = g->siz;
+    opname = "setz";
+    vf_log("L %s setz %zu dtor=%d (num %zu mem %zu siz %zu)", KN, nz, with_dtor, num, L_mem(s), g->siz);
+    dt_arm(g, num ? num - 1 : 0, -1, with_dtor ? num : 0);
+    if (s->is_buf) { a_buf_setz(s->b, nz, with_dtor ? b_dtor : NULL); }
+    else { a_vec_setz(s->v, nz, with_dtor ? b_dtor : NULL); }
+    ++vf.evals;
+    if (with_dtor) { dt_judge(g, "setz"); }
+    g->siz = s->siz = nz;
+    g->K = nz < 4 ? nz : 4;
+    g->num = 0;
+    g->sorted = 1;
+    VF_COUNT("large-setz-reuse");
+    if (L_mem(s) != bytes / nz) { BFAIL("capacity", "mem %zu after setz(%zu) of %zu bytes", L_mem(s), nz, bytes); return; }
+    b_check(g);
+    bcell(opname, g, with_dtor);
+}
+
+/* ---- the scenario */
+static size_t b_store_count(vf_rng *r, size_t limit)
+{
+    static size_t const cn[] = {1, 2, 255, 256, 257, 4095, 4096, 4097};
+    size_t n = vf_chance(r, 1, 3) ? (size_t)vf_below(r, 700) : cn[vf_below(r, 8)];
+    return n > limit ? limit : n;
+}
+
+/* move the count to `target` with cheaply checked single operations (growth) or one bulk removal (shrink) */
+static void b_run_to(big *g, vf_rng *r, size_t target)
+{
+    seq *s = g->h;
+    if (big_dead) { return; }
+    if (s->is_buf && g->fixed && target > L_mem(s)) { target = L_mem(s); }
+    if (g->num > target)
+    {
+        size_t cut = g->num - target;
+        switch ((int)vf_below(r, 4))
+        {
+        case 0: b_erase(g, (size_t)vf_below(r, target + 1), cut, vf_chance(r, 1, 2)); break;
+        case 1: b_setn(g, r, target, vf_chance(r, 1, 2)); break;
+        case 2: b_erase(g, target, SIZE_MAX, vf_chance(r, 1, 2)); break;
+        default: b_erase(g, 0, cut, vf_chance(r, 1, 2)); break;
+        }
+        return;
+    }
+    if (g->num == target) { return; }
+    if (s->is_buf && !g->fixed && L_mem(s) < target) { b_setm(g, target); }
+    vf_log("L %s run: push_back (1/128 push_fore / insert / remove / pull_back) from num %zu to %zu, O(1) clauses per call", KN, g->num, target);
+    g->sorted = 0;
+    while (g->num < target && !big_dead)
+    {
+        unsigned x = (unsigned)vf_below(r, 512);
+        uint32_t id = (uint32_t)vf_u64(r);
+        if (x >= 4 || (s->is_buf && g->num >= L_mem(s))) { b_push(g, 0, 0, id, 0); }
+        else if (x == 0) { b_push(g, 1, 0, id, 0); }
+        else if (x == 1) { b_push(g, 2, (size_t)vf_below(r, g->num + 1), id, 0); }
+        else if (x == 2) { b_pull(g, 2, (size_t)vf_below(r, g->num + 1), 0); }
+        else { b_pull(g, vf_chance(r, 1, 2), 0, 0); }
+    }
+    g->sorted = 0;
+}
+
+/* refusal of an exactly full buffer, state unchanged */
+static void b_refusals(big *g, vf_rng *r)
+{
+    if (big_dead || !g->h->is_buf) { return; }
+    b_make_full(g, r);
+    b_push(g, 0, 0, 1, 0);
+    b_push(g, 1, 0, 2, 0);
+    b_push(g, 2, g->num / 2, 3, 0);
+    b_push(g, 2, SIZE_MAX, 4, 1);
+    b_store(g, r, g->num / 2, vf_chance(r, 1, 2) ? 1 : 300, vf_chance(r, 1, 2));
+    if (g->sorted) { b_sorted_insert(g, r, 2, 1, 3); }
+}
+
+#define B_NOPS 30
+static void b_battery_op(big *g, vf_rng *r, int op)
+{
+    seq *s = g->h;
+    size_t n = g->num, near_end = n > 40 ? n - 1 - (size_t)vf_below(r, 40) : 0;
+    uint32_t id = (uint32_t)vf_u64(r);
+    if (big_dead) { return; }
+    switch (op)
+    {
+    case 0: b_make_spare(g, r, 1); b_push(g, 2, 0, id, 1); break;
+    case 1: b_make_spare(g, r, 1); b_push(g, 2, n / 2, id, 1); break;
+    case 2: b_make_spare(g, r, 1); b_push(g, 2, n ? n - 1 : 0, id, 1); break;
+    case 3: b_make_spare(g, r, 1); b_push(g, 2, vf_chance(r, 1, 2) ? n : SIZE_MAX, id, 1); break;
+    case 4: b_make_spare(g, r, 1); b_push(g, 2, near_end, id, 1); break;
+    case 5: b_make_full(g, r); b_push(g, 2, vf_chance(r, 1, 2) ? g->num - 1 : (size_t)vf_below(r, g->num + 1), id, 1); b_restore(g, r, n); break; /* vec: insert forces growth */
+    case 6: b_make_spare(g, r, 1); b_pull(g, 2, 0, 1); break;
+    case 7: b_make_spare(g, r, 1); b_pull(g, 2, n / 2, 1); break;
+    case 8: b_make_spare(g, r, 1); b_pull(g, 2, n > 1 ? n - 2 : 0, 1); break;
+    case 9: b_make_spare(g, r, 1); b_pull(g, 2, near_end, 1); break;
+    case 10: b_pull(g, 2, vf_chance(r, 1, 2) ? n - 1 : vf_chance(r, 1, 2) ? n : SIZE_MAX, 1); break;
+    case 11: b_make_full(g, r); b_pull(g, 2, 0, 1); b_restore(g, r, n); break;
+    case 12: b_make_full(g, r); b_pull(g, 2, (size_t)vf_below(r, g->num + 1), 1); b_restore(g, r, n); break;
+    case 13: b_make_full(g, r); b_pull(g, 2, g->num > 1 ? g->num - 2 : 0, 1); b_restore(g, r, n); break;
+    case 14: b_make_full(g, r); b_pull(g, 2, g->num > 40 ? g->num - 1 - (size_t)vf_below(r, 40) : 0, 1); b_restore(g, r, n); break;
+    case 15: case 16:
+    {
+        static int const ic[] = {0, 1, 2, 3, 4, 5};
+        int c = ic[vf_below(r, 6)];
+        size_t cnt = b_store_count(r, n / 2 + 8);
+        size_t idx = c == 0 ? 0 : c == 1 ? n / 2 : c == 2 ? (n ? n - 1 : 0) : c == 3 ? n : c == 4 ? SIZE_MAX : near_end;
+        if (s->is_buf) { b_make_spare(g, r, cnt); n = g->num; if (idx != SIZE_MAX && idx > n) { idx = n; } }
+        b_store(g, r, idx, cnt, op == 16);
+        break;
+    }
+    case 17: b_erase(g, n / 3, b_store_count(r, n / 3), vf_chance(r, 1, 2)); break;                 /* chunk in the middle */
+    case 18: b_erase(g, 0, b_store_count(r, n / 3), vf_chance(r, 1, 2)); break;                     /* chunk at the front */
+    case 19: b_erase(g, near_end, 41 + (size_t)vf_below(r, 300), vf_chance(r, 1, 2)); break;        /* clipped at the end */
+    case 20: b_erase(g, vf_chance(r, 1, 2) ? near_end : n, SIZE_MAX - (size_t)vf_below(r, 2), vf_chance(r, 1, 2)); break; /* sentinel count / idx == num */
+    case 21: b_erase(g, near_end, 1, 1); break;
+    case 22:
+    {
+        size_t keep = vf_chance(r, 1, 2) ? n - (size_t)vf_below(r, (n < 300 ? n : 300) + 1) : n / 2 + (size_t)vf_below(r, n / 2 + 1);
+        b_setn(g, r, keep, vf_chance(r, 2, 3));
+        b_setn(g, r, n + (size_t)vf_below(r, 40), 0);
+        VF_COUNT("large-setn-shrink-regrow");
+        break;
+    }
+    case 23: if (!g->fixed) { b_setm(g, g->num + (size_t)vf_below(r, g->num / 4 + 2)); } break;
+    case 24:
+    {
+        int probes = 6 + (int)vf_below(r, 10);
+        b_sort(g);
+        b_search(g, r, probes);
+        for (int i = 0, k = 2 + (int)vf_below(r, 3); i < k; ++i) { b_sorted_insert(g, r, (int)vf_below(r, 3), (int)vf_below(r, 2), (int)vf_below(r, 4)); }
+        b_search(g, r, 4);
+        break;
+    }
+    case 25:
+        if (!g->sorted) { b_sort(g); }
+        for (int v = 0; v < 3; ++v) { b_sorted_insert(g, r, v, (int)vf_below(r, 2), (int)vf_below(r, 2)); } /* smallest / largest key */
+        break;
+    case 26: b_access(g, r); break;
+    case 27:
+        if (!s->is_buf && G[1].h && G[1].h->v)
+        {
+            /* the large contents move to the other handle, are worked on there, and come back */
+            b_swap(&G[0], &G[1]);
+            b_push(&G[1], 0, 0, id, 1);
+            b_pull(&G[1], 2, G[1].num / 2, 1);
+            b_push(&G[0], 0, 0, id ^ 1, 1);
+            b_swap(&G[0], &G[1]);
+        }
+        break;
+    case 28: b_refusals(g, r); b_restore(g, r, n); break;
+    default:
+        b_pull(g, 1, 0, 1);
+        b_push(g, 1, 0, id, 1);
+        b_pull(g, 0, 0, 1);
+        b_push(g, 0, 0, id ^ 2, 1);
+        break;
+    }
+}
+
+/* `floor`: the count is topped up to it before each operation, so that every operation of a station runs at that station's size */
+static void b_battery(big *g, vf_rng *r, int nops, size_t floor)
+{
+    int order[B_NOPS];
+    for (int i = 0; i < B_NOPS; ++i) { order[i] = i; }
+    for (int i = B_NOPS - 1; i > 0; --i)
+    {
+        int j = (int)vf_below(r, (uint64_t)i + 1), t = order[i];
+        order[i] = order[j];
+        order[j] = t;
+    }
+    if (nops > B_NOPS) { nops = B_NOPS; }
+    /* the two operations that raise the capacity of a vector run last, so that the ones needing the exactly-full state come first */
+    for (int pass = 0; pass < 2; ++pass)
+    {
+        for (int i = 0; i < nops && !big_dead; ++i)
+        {
+            if ((order[i] == 5 || order[i] == 23) != pass) { continue; }
+            if (g->num < floor) { b_run_to(g, r, floor + (size_t)vf_below(r, 8)); }
+            b_battery_op(g, r, order[i]);
+        }
+    }
+}
+
+/* largest power of two driven: bounded by the bytes a complete comparison has to look at */
+static int large_kmax(int tier, size_t siz, vf_rng *r)
+{
+    if (tier) { return (siz <= 2 && vf_chance(r, 1, 6)) ? 17 : 16; }
+    return siz <= 4 ? 16 : siz <= 8 ? 15 : siz <= 16 ? 14 : 13;
+}
+
+static void large_case(uint64_t c, vf_rng *r)
+{
+    static size_t const sizes[] = {1, 2, 4, 8, 1, 2, 4, 3, 7, 8, 12, 16, 24, 33};
+    static uint32_t const masks[] = {0xFFFFFFFFu, 0xFFFFFFFFu, 0xFFFFF000u, 0xFFF00000u};
+    int const tier = vf.tier, is_buf = (int)(c & 1);
+    size_t const siz = sizes[vf_below(r, sizeof(sizes) / sizeof(sizes[0]))];
+    uint32_t const kmask = masks[vf_below(r, 4)];
+    int const kmax = large_kmax(tier, siz, r), by_ctor = (int)vf_below(r, 2);
+    int const fixed = is_buf ? (by_ctor || vf_chance(r, 1, 3)) : 0;
+    size_t const top = ((size_t)1 << kmax) + 3 + (size_t)vf_below(r, 60);
+    int const nops_station = tier ? 14 : 7;
+    big *g = &G[0];
+    uint32_t mark;
+
+    KN = is_buf ? "buf" : "vec";
+    big_dead = 0;
+    memset(G, 0, sizeof(G));
+    if (!large_sampled)
+    {
+        /* one sample of this case class per worker, kept in the second slot if the small histories already filled the list */
+        int const keep = vf.nsamples;
+        large_sampled = 1;
+        if (keep >= 2) { vf.nsamples = 1; }
+        vf_sample("large history %" PRIu64 ": one %s of element size %zu%s driven through 2^8 .. 2^%d (+-3) elements and back down, complete comparison with an id model at every size within 3 of a power of two and after each of the structural operations run at each station, up to %zu elements",
+                  c, is_buf ? "a_buf" : "a_vec", siz, fixed ? " (fixed capacity)" : "", kmax, top);
+        if (keep >= 2) { vf.nsamples = keep; }
+    }
+    b_new(g, &S[0], is_buf, siz, fixed ? top + (size_t)vf_below(r, 50) : (size_t)vf_below(r, 41), by_ctor, fixed, kmask);
+    if (!is_buf && !big_dead)
+    {
+        /* the small partner for the whole-vector swap */
+        static size_t const ps[] = {1, 4, 8, 24};
+        b_new(&G[1], &S[1], 0, ps[vf_below(r, 4)], 0, (int)vf_below(r, 2), 0, 0xFFFFFFFFu);
+        for (int i = 0, k = (int)vf_below(r, 20); i < k; ++i) { b_push(&G[1], 0, 0, (uint32_t)vf_u64(r), 0); }
+        b_check(&G[1]);
+    }
+    mark = vf_log_mark();
+
+    /* ---- up: every power of two */
+    for (int k = 8; k <= kmax && !big_dead; ++k)
+    {
+        size_t const P = (size_t)1 << k;
+        if (vf.jr->text_len > 40000) { vf_log_rewind(mark); vf_log("L (earlier stations dropped from the log)"); }
+        vf_log("L station 2^%d", k);
+        b_run_to(g, r, P - 3);
+        b_check(g);
+        for (int i = 0; i < 5 && !big_dead; ++i) /* counts 2^k-2 .. 2^k+2 */
+        {
+            if (is_buf && !fixed)
+            {
+                /* the growable buffer is made exactly full at 2^k-3 .. 2^k+1: it must refuse, then it gets one more slot */
+                b_setm(g, g->num);
+                b_push(g, 0, 0, 5, 0);
+                b_push(g, 2, g->num / 2, 6, 0);
+                b_store(g, r, vf_chance(r, 1, 2) ? 0 : g->num, 1, 0);
+                b_setm(g, g->num + 1);
+            }
+            b_push(g, 0, 0, (uint32_t)vf_u64(r), 1);
+            VF_COUNT("large-pow2-checkpoint");
+        }
+        b_battery(g, r, k == kmax ? B_NOPS : nops_station, P + 2);
+    }
+    /* ---- a random large size (not near a power of two) */
+    if (!big_dead && (tier || vf_chance(r, 1, 2)))
+    {
+        size_t const P = (size_t)1 << kmax;
+        size_t const n = P + P / 16 + (size_t)vf_below(r, tier ? P / 2 : P / 8);
+        vf_log("L random size %zu", n);
+        b_run_to(g, r, n);
+        b_check(g);
+        VF_COUNT("large-random-size-checkpoint");
+        b_battery(g, r, tier ? B_NOPS : 10, n);
+    }
+    /* ---- down: through the powers of two again */
+    for (int k = kmax; k >= 8 && !big_dead; --k)
+    {
+        size_t const P = (size_t)1 << k;
+        if (!tier && k != kmax && vf_chance(r, 1, 2)) { continue; }
+        if (g->num < P + 3) { continue; }
+        if (vf.jr->text_len > 40000) { vf_log_rewind(mark); vf_log("L (earlier stations dropped from the log)"); }
+        vf_log("L station 2^%d on the way down", k);
+        b_run_to(g, r, P + 3);
+        for (int i = 0; i < 6 && !big_dead; ++i)
+        {
+            size_t const n = g->num;
+            switch ((int)vf_below(r, 6))
+            {
+            case 0: b_pull(g, 0, 0, 1); break;
+            case 1: b_pull(g, 1, 0, 1); break;
+            case 2: b_pull(g, 2, n / 2, 1); break;
+            case 3: b_pull(g, 2, n - 2, 1); break;
+            case 4: b_erase(g, (size_t)vf_below(r, n), 1, 1); break;
+            default: b_setn(g, r, n - 1, 1); break;
+            }
+            VF_COUNT("large-pow2-checkpoint-down");
+        }
+        if (tier || vf_chance(r, 1, 3)) { b_battery(g, r, 4, P - 3); }
+    }
+    /* ---- re-use of the block with another element size, bulk refill */
+    if (!big_dead)
+    {
+        static size_t const zs[] = {1, 2, 3, 4, 7, 8, 12, 16, 24, 33};
+        size_t const nz = zs[vf_below(r, 10)];
+        b_setz(g, nz, vf_chance(r, 1, 2));
+        for (int i = 0; i < 4 && !big_dead; ++i)
+        {
+            size_t room = is_buf ? L_mem(g->h) - g->num : 5000, cnt = b_store_count(r, room);
+            b_store(g, r, vf_chance(r, 1, 2) ? g->num / 2 : SIZE_MAX, cnt, (int)vf_below(r, 2));
+        }
+        b_battery_op(g, r, 24);
+    }
+    b_die(&G[0], r);
+    if (!is_buf) { b_die(&G[1], r); }
+}
+
+static int is_large_case(uint64_t c)
+{
+    return c % (vf.tier ? LARGE_MOD_THOROUGH : LARGE_MOD_QUICK) == LARGE_RES;
+}
+
 static uint64_t vf_ncases(int tier) { return tier ? 1200000 : 6000; }
 
+static void small_case(uint64_t c, vf_rng *r);
+
 static void vf_case(uint64_t c, vf_rng *r)
+{
+    cmp_style = (int)(vf_hash64(vf.seed * 0x9E3779B97F4A7C15ULL + 0xC04, c) & 3);
+    memset(cmp_calls, 0, sizeof(cmp_calls));
+    vf_log("comparators of this case return %s", cmp_style_name[cmp_style]);
+    if (is_large_case(c)) { large_case(c, r); }
+    else { small_case(c, r); }
+    VF_ADD("comparator-returns-minus-one-zero-plus-one", cmp_calls[0]);
+    VF_ADD("comparator-returns-key-difference", cmp_calls[1]);
+    VF_ADD("comparator-returns-int-min-int-max", cmp_calls[2]);
+    VF_ADD("comparator-returns-varying-magnitude", cmp_calls[3]);
+}
+
+static void small_case(uint64_t c, vf_rng *r)
 {
     static size_t const sizes[] = {0, 1, 2, 3, 4, 7, 8, 12, 16, 24, 33};
     int is_buf = (int)(c & 1);
